@@ -255,4 +255,80 @@ theorem slice_shift {r q : Row} (xs v : List α) (hd : Row.disj q r)
     · have h0 : r.size = 0 := by omega
       rw [h0, cut_zero]
 
+/-! ### counting argument for exact tiling (no gap) -/
+
+/-- array position `p` lies in the range of index row `r` -/
+def Row.covers (r : Row) (p : Nat) : Bool := decide (r.start ≤ p) && decide (p < r.start + r.size)
+
+theorem countP_range_covers (r : Row) : ∀ n,
+    (List.range n).countP r.covers = min (r.start + r.size) n - min r.start n := by
+  intro n
+  induction n with
+  | zero => simp
+  | succ n ih =>
+    rw [List.range_succ, List.countP_append, ih]
+    simp only [List.countP_cons, List.countP_nil, Row.covers]
+    by_cases h1 : r.start ≤ n <;> by_cases h2 : n < r.start + r.size <;> simp [h1, h2] <;> omega
+
+theorem sum_countP_swap (rows : List Row) (n : Nat) :
+    ((List.range n).map fun p => rows.countP (·.covers p)).sum
+      = (rows.map fun r => (List.range n).countP r.covers).sum := by
+  induction rows with
+  | nil =>
+    simp only [List.countP_nil, List.map_nil, List.sum_nil]
+    induction (List.range n) with
+    | nil => rfl
+    | cons a l ih => simp [ih]
+  | cons x xs ih =>
+    simp only [List.countP_cons, List.map_cons, List.sum_cons, ← ih]
+    generalize List.range n = l
+    induction l with
+    | nil => simp
+    | cons p ps ihp =>
+      simp only [List.map_cons, List.sum_cons, List.countP_cons, ihp]
+      omega
+
+theorem countP_covers_le_one (p : Nat) : ∀ (rows : List Row), rows.Pairwise Row.disj →
+    rows.countP (·.covers p) ≤ 1 := by
+  intro rows
+  induction rows with
+  | nil => intro _; simp
+  | cons x xs ih =>
+    intro hp
+    rw [List.pairwise_cons] at hp
+    simp only [List.countP_cons]
+    by_cases hx : x.covers p
+    · have : xs.countP (·.covers p) = 0 := by
+        rw [List.countP_eq_zero]
+        intro y hy hc
+        have hd := hp.1 y hy
+        simp only [Row.covers, Bool.and_eq_true, decide_eq_true_eq] at hx hc
+        unfold Row.disj at hd; omega
+      simp [hx, this]
+    · have := ih hp.2
+      simp [hx]; exact this
+
+theorem all_one_of_sum (l : List Nat) (h1 : ∀ x ∈ l, x ≤ 1) (hs : l.sum = l.length) :
+    ∀ x ∈ l, x = 1 := by
+  induction l with
+  | nil => intro x hx; cases hx
+  | cons y ys ih =>
+    have hle : ys.sum ≤ ys.length := by
+      clear ih hs
+      induction ys with
+      | nil => simp
+      | cons z zs ihz =>
+        have := h1 z (by simp)
+        have := ihz (fun x hx => h1 x (by
+          rcases List.mem_cons.mp hx with rfl | h
+          · simp
+          · simp [h]))
+        simp only [List.sum_cons, List.length_cons]; omega
+    have hy := h1 y (by simp)
+    simp only [List.sum_cons, List.length_cons] at hs
+    intro x hx
+    rcases List.mem_cons.mp hx with rfl | hx'
+    · omega
+    · exact ih (fun x hx => h1 x (List.mem_cons_of_mem _ hx)) (by omega) x hx'
+
 end GeoVerif.Concat
